@@ -27,7 +27,8 @@ def run(tier):
         alphabet = wproto.export_alphabet(wd)
         # MC of the protocol properties
         dmc = wd.sub("mc")
-        pmc = core.start_tlc(dmc, "MC_WriterProto", "MC_WriterProto_mc.cfg", workers=4, heap="6g")
+        wproto.mc_cfg(os.path.join(dmc, "mc.cfg"), "binlst", tier)
+        pmc = core.start_tlc(dmc, "MC_WriterProto", "mc.cfg", workers=4, heap="6g")
         cases, states, trans = [], 0, 0
         for mode in wproto.MODES:
             progs, r = wproto.gen_programs(wd, mode, maxlen)
@@ -41,17 +42,19 @@ def run(tier):
         trans += rmc["generated"]
         failed, nevents, ntraces = wproto.validate_traces(wd, cases)
         by_id = {c["id"]: c for c in cases}
-        confirmed = 0
+        # CONFIRM: the failing programs again, fresh harness process, judged again
+        again = {}
+        if failed:
+            fcases = [by_id[f["id"]] for f in failed]
+            ag, _, _ = wproto.validate_traces(wd, fcases, tag="confirm")
+            again = {f["id"]: f for f in ag}
         for f in failed:
             case = by_id[f["id"]]
-            # CONFIRM: the failing program alone, fresh process, judged again
-            again, _, _ = wproto.validate_traces(wd, [case], nshards=1, tag="confirm%d-" % confirmed)
-            confirmed += 1
-            if not again:
+            if f["id"] not in again:
                 raise core.MachineryError("rejection of %s did not reproduce" % f["id"])
-            sig = dict(mode=case["mode"], calls=wproto.describe(case), why=again[0]["why"],
-                       at_call=again[0]["line"] - 1)
-            verdicts.fail(sig, dict(case=case, verdict=again[0]))
+            a = again[f["id"]]
+            sig = dict(mode=case["mode"], calls=wproto.describe(case), why=a["why"], at_call=a["call"])
+            verdicts.fail(sig, dict(case=case, verdict=a))
         rc = verdicts.report()
         nontrivial = sum(1 for c in cases if any(x["op"] in ("Begin",) for x in c["prog"])
                          and any(x["op"] == "Finish" for x in c["prog"]))
@@ -63,7 +66,7 @@ def run(tier):
                  "-simulate programs of depth %d over the full 34-call alphabet; non-trivial = opens a "
                  "container and calls Finish" % (maxlen, simdepth),
             exhaustive=True, rejected=len(failed), known_findings=verdicts.known,
-            mc=dict(config="MC_WriterProto_mc.cfg", distinct=rmc["distinct"], generated=rmc["generated"]),
+            mc=dict(config=wproto.MC_BOUNDS[tier], distinct=rmc["distinct"], generated=rmc["generated"]),
             samples=[dict(id=c["id"], calls=wproto.describe(c)) for c in cases[:3] + cases[-2:]]),
             time.time() - t0, len(verdicts.violations),
             assumptions=["harness drivers (applyCall) map call records to Writer methods one-to-one",
